@@ -23,21 +23,23 @@ def main():
         log("setup: Coq build failed")
         return 1
     log("setup: Coq development built (%.0fs)" % (time.time() - t0))
-    ok, out = vlib.build_driver()
-    if not ok:
-        log(out[-4000:])
-        log("setup: model driver build failed")
-        return 1
-    log("setup: model driver built (%.0fs)" % (time.time() - t0))
     bad = 0
     seen = set()
     for pid in registry.PROPS:
         prop = importlib.import_module("p_" + pid.lower()).PROP
-        for (b, feats) in getattr(prop, "harness_bins", [(prop.harness_bin, prop.features)]):
+        for m in getattr(prop, "model_names", [prop.model_name]):
+            if m is None:
+                continue
+            ok, out = vlib.build_driver(m)
+            if not ok:
+                log(out[-4000:])
+                log("setup: model driver %s failed to build" % m)
+                bad += 1
+        for (b, pkg) in getattr(prop, "harness_bins", [(prop.harness_bin, prop.package)]):
             if b in seen or b is None:
                 continue
             seen.add(b)
-            ok, out, _ = vlib.build_harness(b, feats)
+            ok, out, _ = vlib.build_harness(b, pkg)
             if not ok:
                 log(out[-3000:])
                 log("setup: harness %s failed to build" % b)
